@@ -277,6 +277,16 @@ fn run_inner(ctx: &Ctx, dump_dir: &Path, torn_dir: &Path) -> i32 {
             }
         }
     }
+    // the longest files the dump can produce: 20-digit integers, 17-digit negative floats with 3-digit exponents
+    for &b in &[f64::MIN, -2.2250738585072014e-308, -1.2345678901234567e-300, f64::MAX] {
+        for &a in &[f64::MIN, -2.2250738585072014e-308, 1.7976931348623157e308] {
+            for &(m, q) in &[(u64::MAX, u64::MAX), (u64::MAX - 1, 10_000_000_000_000_000_000u64), (12_345_678_901_234_567_890u64, u64::MAX)] {
+                let p = P { b, m, a, q };
+                distinct.insert((b.to_bits(), m, a.to_bits(), q));
+                do_rt(&p, &mut n_rt, &mut n_exact, &mut n_ulp, &mut rt_fail);
+            }
+        }
+    }
     let n_bits = ctx.pick(20_000u64, 1_000_000);
     for i in 0..n_bits {
         let p = gen_tuple(seed, i);
@@ -318,6 +328,8 @@ fn run_inner(ctx: &Ctx, dump_dir: &Path, torn_dir: &Path) -> i32 {
         long,
         short,
         P { b: 4.0 / 3.0, m: 0, a: std::f64::consts::PI / 3.0, q: 1u64 << 53 },
+        P { b: f64::MIN, m: u64::MAX, a: f64::MIN, q: u64::MAX },
+        P { b: -2.2250738585072014e-308, m: u64::MAX, a: -2.2250738585072014e-308, q: u64::MAX },
     ];
     for i in 0..n_cp {
         cp_tuples.push(gen_tuple(seed ^ 0xABCD, i));
